@@ -410,8 +410,7 @@ impl Range {
     }
 
     pub fn _convert_bytes_array_to_string(buffer: Vec<u8>) -> String {
-        let buffer_as_u8_array: &[u8] = &buffer;
-        String::from_utf8(Vec::from(buffer_as_u8_array)).unwrap()
+        String::from_utf8_lossy(&buffer).into_owned()
     }
 
     pub fn get_content_range(body: Vec<u8>, mime_type: String) -> ContentRange {
